@@ -321,7 +321,11 @@ def scoping_shadowed(rng):
            ("sh2", "fn sh2(n: int) -> int {\n    let x: int = %d\n    let mut i: int = 0\n    while (< i n) {\n        let x: int = (* i %d)\n        (println x)\n        set i (+ i 1)\n    }\n    return (+ x i)\n}\n" % (a, b)),
            ("sh3", "fn sh3(n: int) -> int {\n    let mut x: int = %d\n    for k in (range 0 n) {\n        let x: int = (+ k %d)\n        if (> x %d) {\n            let x: int = -1\n            (println x)\n        }\n        (println x)\n    }\n    set x (+ x 1)\n    return x\n}\n" % (a, b, b)),
            ("sh4", "fn sh4(x: int) -> int {\n    if (> x 0) {\n        let x: int = (* x %d)\n        (println x)\n    }\n    return x\n}\n" % b)]
-    calls = [("sh1", "(sh1 true)"), ("sh1", "(sh1 false)"), ("sh2", "(sh2 0)"), ("sh2", "(sh2 3)"), ("sh3", "(sh3 0)"), ("sh3", "(sh3 3)"), ("sh4", "(sh4 2)"), ("sh4", "(sh4 -2)")]
+    # the range of a for loop belongs to the enclosing scope: a loop variable named like a variable the bounds mention
+    fns += [("sh5", "fn sh5(n: int) -> int {\n    let mut s: int = 0\n    for n in (range 0 n) {\n        set s (+ s n)\n    }\n    return (+ s (* n %d))\n}\n" % c),
+            ("sh6", "fn sh6(lo: int, width: int) -> int {\n    let hi: int = (+ lo width)\n    let mut count: int = 0\n    for hi in (range lo (+ hi 1)) {\n        set count (+ count 1)\n        (println hi)\n    }\n    for lo in (range (- lo %d) lo) {\n        set count (+ count lo)\n    }\n    return (+ count hi)\n}\n" % a)]
+    calls = [("sh1", "(sh1 true)"), ("sh1", "(sh1 false)"), ("sh2", "(sh2 0)"), ("sh2", "(sh2 3)"), ("sh3", "(sh3 0)"), ("sh3", "(sh3 3)"), ("sh4", "(sh4 2)"), ("sh4", "(sh4 -2)"),
+             ("sh5", "(sh5 0)"), ("sh5", "(sh5 %d)" % rng.randint(2, 6)), ("sh6", "(sh6 %d %d)" % (rng.randint(0, 5), rng.randint(0, 3))), ("sh6", "(sh6 -2 4)")]
     return shadowed(fns, calls)
 
 
